@@ -302,7 +302,7 @@ fn offset_product(env: &mut Env, case: &Case) -> Verdict {
     let got = match crate::obs::eval_one(env.db(), &case.key) {
         Ok(crate::obs::Res::Ok { value, unit, .. }) => match crate::units::si_of(&value, &unit, true) {
             Ok(si) => si,
-            Err(e) => return crate::fw::fail("unit-table", format!("{}: {e}", case.key)),
+            Err(e) => return crate::units::table_verdict(format!("{}: {e}", case.key)),
         },
         Ok(crate::obs::Res::Err { .. }) => return Verdict::DontCare("an offset scale as a factor is refused (C09 allows that)"),
         Err(why) => return crate::fw::fail("results:offset-product", format!("{}: {why}", case.key)),
